@@ -11,7 +11,7 @@ def _c12_nontrivial(cf):
 
 CONFIG = dict(
     correspondence="GoImap.ClientSM (Model/ClientSM.lean) vs imapclient.Client driven by a scripted server over an in-memory connection: after every step of the transcript (command submission, continuation request, tagged reply, untagged response, BYE+close) Client.State(), Client.Mailbox() (name, NumMessages, Flags, PermanentFlags), the commands whose Wait/Collect returned in that step with status class, response code and the data they delivered, the calls of the unilateral data handler, and the tag seen on the wire",
-    rule="random transcripts: greeting OK/PREAUTH/BYE with/without [CAPABILITY]; 1-4 pipelined commands from NOOP, CREATE, LOGIN (quoted and with a synchronising literal), SELECT/EXAMINE, UNSELECT/CLOSE, LIST, STATUS, SEARCH/UID SEARCH (plain and RETURN (ALL)), FETCH/UID FETCH/STORE/UID STORE, EXPUNGE, CAPABILITY, APPEND; answers in every order, every OK/NO/BAD assignment with and without response codes, literals accepted (+) or refused (tagged NO/BAD); command data interleaved with unsolicited EXISTS/EXPUNGE/FLAGS/PERMANENTFLAGS/FETCH/RECENT/[CLOSED]/BYE/untagged OK-NO-BAD; re-SELECT with and without [CLOSED]; a closing NOOP that must complete OK while the connection lives; ~4% deliberately non-conformant tails (duplicate reply, unknown tag, stray +) on which only the model is compared; plus a corpus of the repaired defects. Non-trivial = at least two commands besides the closing NOOP; distinct = different case line",
+    rule="random transcripts: greeting OK/PREAUTH/BYE with/without [CAPABILITY]; 0-12 (sometimes 95-105) warm-up commands so that tags cross digit-width boundaries; 1-4 pipelined commands from NOOP, CREATE, LOGIN (quoted and with a synchronising literal), SELECT/EXAMINE, UNSELECT/CLOSE, LIST, STATUS, SEARCH/UID SEARCH (plain and RETURN (ALL)), FETCH/UID FETCH/STORE/UID STORE, EXPUNGE, CAPABILITY, APPEND; answers in every order, every OK/NO/BAD assignment with and without response codes, literals accepted (+) or refused (tagged NO/BAD); command data interleaved with unsolicited EXISTS/EXPUNGE/FLAGS/PERMANENTFLAGS/FETCH/RECENT/[CLOSED]/BYE/untagged OK-NO-BAD; re-SELECT with and without [CLOSED]; a closing NOOP that must complete OK while the connection lives; ~4% deliberately non-conformant tails (duplicate reply, unknown tag, stray +) on which only the model is compared; plus a corpus of the repaired defects. Non-trivial = at least two commands besides the closing NOOP; distinct = different case line",
     nontrivial=_c12_nontrivial,
     trusted=["the scripted server's rendering of responses and the client's response parser (C03/C11) carry the structured events to the code under test",
              "the barrier: the client's reader goroutine is blocked in Read with every written byte consumed (or the client closed the connection), plus the return of the answered command's Wait"],
@@ -20,5 +20,5 @@ CONFIG = dict(
                  "an empty unsolicited FLAGS list is not generated (UnilateralDataMailbox cannot represent it)"],
     leanchecker=True,
     level_text="proof: for every conformant transcript the mirrored client computes exactly the RFC-level reference interpretation (connection state, mailbox summary, per-command status/code/data, unilateral data), every submitted tag is completed exactly once, and a NO/BAD (including the refusal of a literal) leaves the other commands and the connection untouched; the mirror is tied to imapclient on every run after every single step of generated transcripts, and the reference interpretation judges the implementation's observations directly",
-    level_note="Trusted: Lean kernel; harness/driver; the response parser below the structured events. The status of each theorem is listed at the top of lean/GoImap/Props/C12.lean.",
+    level_note="Trusted: Lean kernel; harness/driver; the response parser below the structured events. refines/mirror/routing/complete_once/reply_status/isolation/usable/selected_has_mailbox are proved for transcripts of any length (lean/GoImap/Props/C12.lean lists them); that imapclient behaves like the mirror is established by the per-step correspondence, not by proof.",
 )
